@@ -209,7 +209,8 @@ static void run_cuts(uint64_t idx, Ctx& c) {
             std::string a = cache[pc.doc], b = got; size_t i = 0; while (i < a.size() && i < b.size() && a[i] == b[i]) i++;
             size_t ls = a.rfind('\n', i); ls = ls == std::string::npos ? 0 : ls + 1;
             std::string ea = a.substr(ls, a.find('\n', i) - ls), eb = b.substr(ls, b.find('\n', i) == std::string::npos ? std::string::npos : b.find('\n', i) - ls);
-            c.violation("chunking-dependent-result", "\"class\":" + jstr(diff_class(ea, eb)) + ",\"doc\":" + jstr(cd.name) + ",\"role\":" + std::to_string(cd.role) + ",\"bytes_hex\":" + jstr(hexs(cd.bytes)) + ",\"plan\":" + jstr(planS) + ",\"plan_kind\":" + jstr(pc.kind) +
+            std::string dcls = diff_class(ea, eb);
+            c.violation(dcls == "other" ? "chunking-dependent-result" : "chunking-dependent-result/" + dcls, "\"class\":" + jstr(dcls) + ",\"doc\":" + jstr(cd.name) + ",\"role\":" + std::to_string(cd.role) + ",\"bytes_hex\":" + jstr(hexs(cd.bytes)) + ",\"plan\":" + jstr(planS) + ",\"plan_kind\":" + jstr(pc.kind) +
                         ",\"api\":" + jstr(ApiName[api]) + ",\"first_read\":" + std::to_string(pc.plan.empty() ? 0 : pc.plan[0]) + ",\"expected\":" + jstr(a.substr(ls, a.find('\n', i) - ls)) + ",\"observed\":" + jstr(b.substr(ls, b.find('\n', i) == std::string::npos ? std::string::npos : b.find('\n', i) - ls)));
             if (c.verbose) printf("plan=%s\n--- undisturbed:\n%s--- chunked:\n%s", planS.c_str(), a.c_str(), b.c_str());
         }
@@ -284,7 +285,8 @@ static void run_slide(uint64_t idx, Ctx& c) {
         size_t i = 0; while (i < x.size() && i < y.size() && x[i] == y[i]) i++;
         size_t ls = x.rfind('\n', i); ls = ls == std::string::npos ? 0 : ls + 1;
         std::string ea = x.substr(ls, x.find('\n', i) - ls), eb = y.substr(ls, y.find('\n', i) == std::string::npos ? std::string::npos : y.find('\n', i) - ls);
-        c.violation("boundary-dependent-result", "\"class\":" + jstr(diff_class(ea, eb)) + ",\"case\":" + jstr(name) + ",\"expected_tail\":" + jstr(x.substr(i > 40 ? i - 40 : 0, 160)) + ",\"observed_tail\":" + jstr(y.substr(i > 40 ? i - 40 : 0, 160)));
+        std::string dcls = diff_class(ea, eb);
+        c.violation(dcls == "other" ? "boundary-dependent-result" : "boundary-dependent-result/" + dcls, "\"class\":" + jstr(dcls) + ",\"case\":" + jstr(name) + ",\"expected_tail\":" + jstr(x.substr(i > 40 ? i - 40 : 0, 160)) + ",\"observed_tail\":" + jstr(y.substr(i > 40 ? i - 40 : 0, 160)));
     }
     ExpatRef ref; ref.run(doc, false);
     if (CONS[s.cons].name == "supp-name") { c.count("reference_skipped_supplementary_name"); }  // expat has no supplementary-plane name characters
